@@ -9,6 +9,7 @@
  *     flags  : letters: a = log allocation events, b = log bytes of reads, h = log header fields,
  *              s = extract to safe explicit names instead of NULL, w = count source work,
  *              m = report live/peak heap bytes of the library (without logging every allocation)
+ *     flags  : ... o = log the bytes of the file an extract operation wrote
  *     ops    : comma separated: N next, R<k> read, C check, X extract, P<policy> set policy,
  *              Q free reader+stream now (further ops are ignored), A<n> = repeat "N,R<n>*" to end
  * The content of <gtfile> (one JSON object, the ground truth for this execution) is copied to the
@@ -26,7 +27,7 @@
 #include "lib/lha_file_header.h"
 #include "alloc_shim.h"
 
-static int f_alloc, f_bytes, f_hdr, f_safe, f_work, f_mem;
+static int f_alloc, f_bytes, f_hdr, f_safe, f_work, f_mem, f_out;
 
 /* ---------- identity of a header: hex of path + filename (all headers passed here are live) ---------- */
 static char idbuf[8][2100]; static int idrot;
@@ -140,7 +141,7 @@ int main(int argc, char **argv)
 			fprintf(stderr, "bad job: %s", line); return 2;
 		}
 		f_alloc = !!strchr(flags, 'a'); f_bytes = !!strchr(flags, 'b'); f_hdr = !!strchr(flags, 'h');
-		f_safe = !!strchr(flags, 's'); f_work = !!strchr(flags, 'w'); f_mem = !!strchr(flags, 'm');
+		f_safe = !!strchr(flags, 's'); f_work = !!strchr(flags, 'w'); f_mem = !!strchr(flags, 'm'); f_out = !!strchr(flags, 'o');
 		/* Reset line */
 		if (strcmp(gt, "-")) {
 			FILE *g = fopen(gt, "r"); int c;
@@ -219,8 +220,15 @@ int main(int argc, char **argv)
 					if (p) { size_t l = strlen(p); while (l > 1 && p[l - 1] == '/') p[--l] = 0; existed = lstat(p, &sb) == 0; pth = p; }
 				}
 				LIB(res = lha_reader_extract(r, fn, NULL, NULL));
-				if (pth) { after = lstat(pth, &sb) == 0; free(pth); }
+				if (pth) { after = lstat(pth, &sb) == 0; }
 				printf("{\"e\":\"Extract\",\"res\":%s,\"existed\":%s,\"after\":%s", res ? "true" : "false", existed ? "true" : "false", after ? "true" : "false");
+				/* flag o: what the operation wrote (the bytes of the regular file now at the output path) */
+				if (f_out && pth && after && S_ISREG(sb.st_mode)) {
+					if (sb.st_size > 65536) printf(",\"filebig\":true");
+					else { FILE *of = fopen(pth, "rb"); int c, first = 1;
+						if (of) { printf(",\"file\":["); while ((c = getc(of)) != EOF) { printf("%s%d", first ? "" : ",", c); first = 0; } printf("]"); fclose(of); } }
+				}
+				free(pth);
 				tail(r);
 				break; }
 			case 'P':
